@@ -264,8 +264,8 @@ def gctm_body(ctx, case):
 
 
 LAWS = [
-    given_law("equivalent_layers", el_cases(), el_body, {"quick": 600, "thorough": 4000}),
+    given_law("equivalent_layers", el_cases(), el_body, {"quick": 600, "thorough": 10000}, shards={"quick": 3, "thorough": 16}),
     Law("equivalent_layers_enum", el_enum_run, replay=lambda ctx, case: check_equivalent(ctx, case["h"], case["p"], case["L"], None), shards={"quick": 12, "thorough": 16}),
-    given_law("optimal_grouping", og_cases(22), og_body, {"quick": 150, "thorough": 400}),
-    given_law("gctm", gctm_cases(), gctm_body, {"quick": 60, "thorough": 200}),
+    given_law("optimal_grouping", og_cases(22), og_body, {"quick": 150, "thorough": 1000}, shards={"quick": 3, "thorough": 16}),
+    given_law("gctm", gctm_cases(), gctm_body, {"quick": 60, "thorough": 500}, shards={"quick": 3, "thorough": 16}),
 ]
